@@ -90,9 +90,7 @@ func init() {
 		Packages: []string{"wallet", "wallet/common"},
 		Explanation: "Decides R38a-R38d: the lock flag can be driven to 'unlocked' only by ProcWalletUnLock, and there only behind the password verification; every function that reads or decrypts a stored private key or the seed does so behind a passed wallet-status check (or is only called from such a place), with the password-change path as the one reasoned exception; " +
 			"the flag is only ever accessed through sync/atomic; the unlock timeout re-locks and is armed only by the unlock path.",
-		NotCovered: "policies' own lock flags (ticket mining) and secrets held by callers after a legitimate read.",
-		Hold:       "R38a fires on ProcWalletSetPasswd's temporary unlock; reproduction and repair in progress",
-		Rules: []core.Rule{
+		NotCovered: "policies' own lock flags (ticket mining) and secrets held by callers after a legitimate read.",		Rules: []core.Rule{
 			rule("R38a", "who may unlock, and only after the password was verified", 4, func(r *Run) {
 				pkg := r.W.Pkg("wallet")
 				if pkg == nil {
